@@ -419,7 +419,7 @@ def pan8_range_arithmetic(ctx):
             if blk.cleanup or t is None or t.kind != 'assert':
                 continue
             msg = getattr(t, 'msg', '') or t.code
-            if re.search(r'attempt to (add|subtract|multiply|divide|negate|shift|calculate the remainder)', msg):
+            if re.search(r'attempt to (compute|add|subtract|multiply|divide|negate|shift|calculate)', msg):
                 raw.append((b, t))
     ctx.check('PAN-8', 'encoding_range|checked-arithmetic-only', not raw,
               'encoding_range and its closures contain %d plain arithmetic operation(s) that can overflow or divide '
